@@ -23,6 +23,9 @@ def generate(tier, seed):
             for d in ((30.0, 1200.0) if tier == "quick" else DIST):
                 cases.append({"kind": "files", "a": a, "b": b, "d": d, "seed": "%d:f:%d" % (seed, k), "cost": 500})
                 k += 1
+    for d in ((40.0,) if tier == "quick" else (25.001, 40.0, 1100.0)):
+        cases.append({"kind": "files", "a": "4DFR.pdb", "b": "4DFR.pdb", "d": d, "seed": "%d:f:%d" % (seed, k), "cost": 900})
+        k += 1
     n = 130 if tier == "quick" else 4000
     for i in range(n):
         cases.append({"kind": "built", "d": DIST[i % len(DIST)], "seed": "%d:b:%d" % (seed, i), "cost": 50})
@@ -131,6 +134,14 @@ def run_case(case, tier):
             return sources.no_water(sources.repo_recs(rng.choice(sources.SMALL)))
         a = part()
         b = [r.copy() if r.raw is None else r for r in a] if rng.random() < 0.25 else part()
+        if rng.random() < 0.4:
+            # an ion in one of the parts (ions act on every titratable group within their range)
+            from .. import fragments
+            tgt = b if rng.random() < 0.7 else a
+            frag, _, _ = fragments.place_near(tgt, "ion:" + rng.choice(sorted(fragments.IONS)), rng, dist_A=rng.uniform(3.0, 7.0),
+                                               chain=rng.choice([r.chain for r in tgt if r.raw is None][:1]), resnum=990)
+            if frag:
+                tgt.extend(frag)
     a, b = single_conf(sources.no_hydrogens(a)), single_conf(sources.no_hydrogens(b))
     if not pdbio.atoms(a) or not pdbio.atoms(b):
         return util.finish(case, viol, counts, classes, False, {"skipped": "empty part"}, inconclusive="empty part")
